@@ -41,8 +41,9 @@ let cred (c : string) =
     | "trunc" | "notb64" -> Some (Files.CErr (z_of_int 400))
     | "unknown" -> Some Files.CUnknownScheme
     | _ -> failwith ("cred " ^ c)
+(* the uid the session store yields for the sid that is present: 0 = no such session or not logged in *)
 let sid = function
-  | "live" -> Some (n_of_int 1) | "anon" -> Some (n_of_int 0) | _ -> None
+  | "live" -> Some (n_of_int 1) | "anon" | "dead" -> Some (n_of_int 0) | _ -> None
 let topic = function
   | "-" -> None | "newacc" -> Some true | _ -> Some false
 let handler mh = mh <> "none"
